@@ -76,9 +76,21 @@ class CallsMixin:
             results = sig.get('results') or []
             fnd = self.prog.funcs.get(callee)
             rn = (fnd or {}).get('resultnames') or [r.get('name') or '' for r in results]
+            extra = None
             if fnd is not None and fnd.get('freevars'):
-                raise OutOfSubset('contracted closure call')
-            vals = self.apply_contract(st, fr, ins, con, callee, params, args, [r['type'] for r in results], rn)
+                # a closure under contract: its captured variables are named in the contract and
+                # denote their current values; the contract may not modify them
+                fvs = fnd['freevars']
+                if binds is None or len(binds) != len(fvs) or con.modifies:
+                    raise OutOfSubset('contracted closure call')
+                types = self.types
+                extra = {}
+                for fvd, bv in zip(fvs, binds):
+                    if types.kind(bv.t) == 'ptr' and types.kind(fvd['type']) == 'ptr':
+                        extra[fvd['name']] = (lambda bv=bv: st.load(st.ptr_loc(bv), facts=False))
+                    else:
+                        extra[fvd['name']] = bv
+            vals = self.apply_contract(st, fr, ins, con, callee, params, args, [r['type'] for r in results], rn, extra_env=extra)
             self.set_result(st, ins, vals)
             return None
         fnd = self.prog.funcs.get(callee)
@@ -88,12 +100,12 @@ class CallsMixin:
         return self.call_opaque(st, fr, ins, callee, args)
 
     # ------------------------------------------------------------ modular call
-    def apply_contract(self, st, fr, ins, con, callee, params, args, rtypes, rnames, label=None):
+    def apply_contract(self, st, fr, ins, con, callee, params, args, rtypes, rnames, label=None, extra_env=None):
         cx = self.cx
         types = self.types
         short = callee.split('/')[-1].replace('::', '.')
         st.callcount += 1
-        env = {}
+        env = dict(extra_env or {})
         for n, a in zip(params, args):
             env[n] = a
         off = 1 if (params and params[0] == 'recv') else 0
@@ -509,30 +521,49 @@ class CallsMixin:
                 return self.body_writes(st, callee, fnd)
             return 'all'
         sig = self.prog.sigs.get(callee) or {}
-        real = []
-        for a in call['args']:
-            v = None
-            if self.defined_outside(fr, a, body):
-                try:
-                    v = self.operand(st, fr, a)
-                except Exception:
-                    v = None
-            real.append(v)
+        real = [self.loopinv_value(st, fr, a, body) for a in call['args']]
         return self.contract_writes(st, con, sig, real)
 
-    def closure_static(self, fr, fnv):
-        if fnv['k'] != 'reg':
-            return False
+    def closure_defs(self, fr, fnv, depth=0):
+        """the MakeClosure instructions a function-valued register can come from (through phis),
+        or None when it is not statically known"""
+        if fnv['k'] != 'reg' or depth > 4:
+            return None
         d = self.def_instr(fr, fnv['name'])
-        return d is not None and d['op'] == 'MakeClosure'
+        if d is None:
+            return None
+        if d['op'] == 'MakeClosure':
+            return [d]
+        if d['op'] == 'Phi':
+            out = []
+            for e in d['edges']:
+                r = self.closure_defs(fr, e, depth + 1)
+                if r is None:
+                    return None
+                out += r
+            return out
+        return None
+
+    def closure_static(self, fr, fnv):
+        return self.closure_defs(fr, fnv) is not None
 
     def closure_writes(self, st, fr, fnv, body):
-        d = self.def_instr(fr, fnv['name'])
-        callee = d['fn']['name']
-        fnd = self.prog.funcs.get(callee)
-        if fnd is None:
-            return 'all'
-        return self.body_writes(st, callee, fnd)
+        out = []
+        for d in self.closure_defs(fr, fnv):
+            callee = d['fn']['name']
+            fnd = self.prog.funcs.get(callee)
+            if fnd is None:
+                return 'all'
+            con = self.prog.cs.funcs.get(callee)
+            if con is not None and not con.inline:
+                if con.modifies:
+                    return 'all'
+                continue
+            w = self.body_writes(st, callee, fnd)
+            if w == 'all':
+                return 'all'
+            out += w
+        return out
 
     def body_writes(self, st, callee, fnd):
         """write set of an inlinable body, by type only (no base refinement)"""
